@@ -256,11 +256,16 @@ class Funcs:
                     body_hint.append('    }')
                 body_hint.append('}')
                 forline = 'for %s in self.%s.iter() {' % (pat, field)
+                # the first copy cleared after this loop (the new copies of the relation are cleared in declaration order, not starting with the iterated one)
+                mclear = re.search(r'\}\nself\.(\w+)\.clear\(\);', body[body.index(forline):])
+                if not mclear:
+                    raise G.Unsupported('move_new_to_old: no clear() after the loop over %s' % field)
+                first_clear = mclear.group(1)
                 it.before(forline, 'let ghost pre%d = *self;' % k)
                 it.for_loop(k, 'invariant ' + ',\n                '.join(inv) + ',')
                 it.after(forline, 'let ghost b__ = *self;')
-                # end of the loop body = right before the closing brace that precedes the clear of the iterated copy
-                it.before('}\nself.%s.clear();' % field, '\n'.join(body_hint))
+                # end of the loop body = right before the closing brace that precedes the first clear after the loop
+                it.before('}\nself.%s.clear();' % first_clear, '\n'.join(body_hint))
                 # summary after the loop
                 summ = ['proof {']
                 for c in olds:
@@ -268,14 +273,13 @@ class Funcs:
                     summ.append('        if exists|x: Seq<u32>| #[trigger] pre%(k)d.%(P)s@.contains(x) && Self::ok%(k)d_%(f)s(x) && Self::mv%(k)d_%(f)s(x) == s { let x = choose|x: Seq<u32>| #[trigger] pre%(k)d.%(P)s@.contains(x) && Self::ok%(k)d_%(f)s(x) && Self::mv%(k)d_%(f)s(x) == s; }' % {'f': c.field, 'k': k, 'P': field})
                     summ.append('    }')
                 summ.append('}')
-                it.before('self.%s.clear();' % field, 'let ghost sm%d = *self;\n' % k + '\n'.join(summ).replace('self.', 'sm%d.' % k))
+                it.before('self.%s.clear();' % first_clear, 'let ghost sm%d = *self;\n' % k + '\n'.join(summ).replace('self.', 'sm%d.' % k))
                 # ---- final reasoning for this relation (identity-ordered primaries only)
                 PO = m.primary(r, 'old')
-                if P is not m.primary(r, 'new') or P.order != PO.order:
-                    raise G.Unsupported('move_new_to_old: the iterated copy of %s is not its primary copy, or the new and old primary copies have different column orders' % r)
+                PN = m.primary(r, 'new')
                 fh = final_hints
                 fh.append('    // ---- %s' % r)
-                identity = P.order == list(range(n))
+                identity = P.order == list(range(n)) and P is PN and PO.order == list(range(n))
                 if identity:
                     fh.append('    assert forall|t: Seq<u32>| #[trigger] self.t_%(r)s_old().contains(t) <==> (old(self).t_%(r)s_old().contains(t) || old(self).t_%(r)s_new().contains(t)) by {' % {'r': r})
                     fh.append('        if old(self).t_%(r)s_new().contains(t) { pre%(k)d.%(P)s.lemma_len(t); assert(pre%(k)d.%(P)s@.contains(t)); assert(Self::mv%(k)d_%(PO)s(t) =~= t); }' % {'r': r, 'k': k, 'P': field, 'PO': PO.field})
@@ -295,18 +299,36 @@ class Funcs:
                                   % {'k': k, 'P': field, 'f': c.field, 'cOmv': G.seq_lit(['Self::mv%d_%s(x)[%d]' % (k, c.field, a) for a in aO])})
                         fh.append('        assert(old(self).%(f)s@.contains(s) <==> (s.len() == %(m)d && old(self).t_%(r)s_old().contains(t)));' % {'f': c.field, 'm': mO, 'r': r})
                         fh.append('    }')
-                        fh.append('    assert(self.%(f)s@ =~= ISet::new(|s: Seq<u32>| s.len() == %(m)d && self.t_%(r)s_old().contains(%(cO)s)));' % {'f': c.field, 'm': mO, 'r': r, 'cO': cO})
+                        fh.append('        assert(self.%(f)s@ =~= ISet::new(|s: Seq<u32>| s.len() == %(m)d && self.t_%(r)s_old().contains(%(cO)s)));' % {'f': c.field, 'm': mO, 'r': r, 'cO': cO})
                 else:
-                    # general column order (the same for the new and the old primary copy): stP(t) = the stored tuple of canonical t
+                    # general case: the iterated new copy P (any plain copy, any column order; related to t_<r>_new by definition when it is the
+                    # primary copy and by inv otherwise) and the old primary copy PO (any column order).  stP(t) / stO(t) = the tuple stored in
+                    # P / PO for canonical t; canP(x) = the canonical tuple of a tuple x stored in P
+                    if P.eqs is not None:
+                        raise G.Unsupported('move_new_to_old: the iterated copy of %s is a diagonal copy' % r)
                     def stP(comps):
                         return G.seq_lit(G.stored_of_canonical(m, P, comps))
+                    def stO(comps):
+                        return G.seq_lit(G.stored_of_canonical(m, PO, comps))
+                    def canP(x):
+                        return G.seq_lit(['%s[%d]' % (x, a) for a in aP])
+                    mPO, aPO = G.copy_index_map(m, PO)
                     tcomps = ['t[%d]' % i for i in range(n)]
-                    D0 = {'r': r, 'k': k, 'P': field, 'PO': PO.field, 'n': n, 'st': stP(tcomps)}
+                    D0 = {'r': r, 'k': k, 'P': field, 'PO': PO.field, 'n': n, 'stP': stP(tcomps), 'stO': stO(tcomps), 'canPsP': canP('sP'), 'canPx': canP('x'),
+                          'backO': stP(['Self::mv%d_%s(x)[%d]' % (k, PO.field, a) for a in aPO]), 'canOsO': G.seq_lit(['sO[%d]' % a for a in aPO])}
+                    fh.append('    assert forall|x: Seq<u32>| #[trigger] pre%(k)d.%(P)s@.contains(x) implies x.len() == %(n)d && old(self).t_%(r)s_new().contains(%(canPx)s) by { pre%(k)d.%(P)s.lemma_len(x); assert(%(stPcanPx)s =~= x); }' % dict(D0, stPcanPx=stP(['%s[%d]' % (canP('x'), i) for i in range(n)])))
                     fh.append('    assert forall|t: Seq<u32>| #[trigger] self.t_%(r)s_old().contains(t) <==> (old(self).t_%(r)s_old().contains(t) || old(self).t_%(r)s_new().contains(t)) by {' % D0)
+                    fh.append('        if old(self).t_%(r)s_new().contains(t) { assert(old(self).t_%(r)s().contains(t)); }' % D0)
+                    fh.append('        if old(self).t_%(r)s_old().contains(t) { assert(old(self).t_%(r)s().contains(t)); }' % D0)
+                    fh.append('        if self.%(PO)s@.contains(t) { self.%(PO)s.lemma_len(t); }' % D0)
                     fh.append('        if t.len() == %(n)d {' % D0)
-                    fh.append('            let s = %(st)s;' % D0)
-                    fh.append('            if pre%(k)d.%(P)s@.contains(s) { assert(Self::ok%(k)d_%(PO)s(s)); assert(Self::mv%(k)d_%(PO)s(s) =~= s); }' % D0)
-                    fh.append('            if exists|x: Seq<u32>| #[trigger] pre%(k)d.%(P)s@.contains(x) && Self::ok%(k)d_%(PO)s(x) && Self::mv%(k)d_%(PO)s(x) == s { let x = choose|x: Seq<u32>| #[trigger] pre%(k)d.%(P)s@.contains(x) && Self::ok%(k)d_%(PO)s(x) && Self::mv%(k)d_%(PO)s(x) == s; pre%(k)d.%(P)s.lemma_len(x); assert(Self::mv%(k)d_%(PO)s(x) =~= x); }' % D0)
+                    fh.append('            let sP = %(stP)s; let sO = %(stO)s;' % D0)
+                    fh.append('            assert(%(canPsP)s =~= t); assert(%(canOsO)s =~= t);' % D0)
+                    if PO.order == list(range(n)):
+                        fh.append('            assert(sO =~= t);')
+                    fh.append('            if old(self).t_%(r)s_new().contains(t) { assert(pre%(k)d.%(P)s@.contains(sP)); assert(Self::ok%(k)d_%(PO)s(sP)); assert(Self::mv%(k)d_%(PO)s(sP) =~= sO); assert(sm%(k)d.%(PO)s@.contains(sO)); assert(self.%(PO)s@.contains(sO)); }' % D0)
+                    fh.append('            if old(self).t_%(r)s_old().contains(t) { assert(pre%(k)d.%(PO)s@.contains(sO)); assert(sm%(k)d.%(PO)s@.contains(sO)); assert(self.%(PO)s@.contains(sO)); }' % D0)
+                    fh.append('            if exists|x: Seq<u32>| #[trigger] pre%(k)d.%(P)s@.contains(x) && Self::ok%(k)d_%(PO)s(x) && Self::mv%(k)d_%(PO)s(x) == sO { let x = choose|x: Seq<u32>| #[trigger] pre%(k)d.%(P)s@.contains(x) && Self::ok%(k)d_%(PO)s(x) && Self::mv%(k)d_%(PO)s(x) == sO; pre%(k)d.%(P)s.lemma_len(x); assert(%(backO)s =~= x); assert(x =~= sP); assert(%(canPx)s =~= t); }' % D0)
                     fh.append('        }')
                     fh.append('    }')
                     fh.append('    assert(self.t_%(r)s_old() =~= old(self).t_%(r)s_old().union(old(self).t_%(r)s_new()));' % D0)
@@ -316,12 +338,14 @@ class Funcs:
                             continue
                         mO, aO = G.copy_index_map(m, c)
                         cO = G.seq_lit(['s[%d]' % a for a in aO])
-                        D1 = dict(D0, f=c.field, m=mO, cO=cO, stcO=stP(['s[%d]' % a for a in aO]),
+                        x0 = stP(['s[%d]' % a for a in aO])
+                        D1 = dict(D0, f=c.field, m=mO, cO=cO, stcO=x0, canPx0=canP('x0'),
                                   back=stP(['Self::mv%d_%s(x)[%d]' % (k, c.field, a) for a in aO]))
                         fh.append('    assert forall|s: Seq<u32>| #[trigger] self.%(f)s@.contains(s) <==> (s.len() == %(m)d && self.t_%(r)s_old().contains(%(cO)s)) by {' % D1)
                         fh.append('        let t = %(cO)s;' % D1)
-                        fh.append('        if s.len() == %(m)d && old(self).t_%(r)s_new().contains(t) { let x0 = %(stcO)s; assert(pre%(k)d.%(P)s@.contains(x0)); assert(Self::ok%(k)d_%(f)s(x0)); assert(Self::mv%(k)d_%(f)s(x0) =~= s); }' % D1)
-                        fh.append('        if exists|x: Seq<u32>| #[trigger] pre%(k)d.%(P)s@.contains(x) && Self::ok%(k)d_%(f)s(x) && Self::mv%(k)d_%(f)s(x) == s { let x = choose|x: Seq<u32>| #[trigger] pre%(k)d.%(P)s@.contains(x) && Self::ok%(k)d_%(f)s(x) && Self::mv%(k)d_%(f)s(x) == s; pre%(k)d.%(P)s.lemma_len(x); assert(%(back)s =~= x); }' % D1)
+                        fh.append('        if self.%(f)s@.contains(s) { self.%(f)s.lemma_len(s); }' % D1)
+                        fh.append('        if s.len() == %(m)d && old(self).t_%(r)s_new().contains(t) { let x0 = %(stcO)s; assert(%(canPx0)s =~= t); assert(pre%(k)d.%(P)s@.contains(x0)); assert(Self::ok%(k)d_%(f)s(x0)); assert(Self::mv%(k)d_%(f)s(x0) =~= s); }' % D1)
+                        fh.append('        if exists|x: Seq<u32>| #[trigger] pre%(k)d.%(P)s@.contains(x) && Self::ok%(k)d_%(f)s(x) && Self::mv%(k)d_%(f)s(x) == s { let x = choose|x: Seq<u32>| #[trigger] pre%(k)d.%(P)s@.contains(x) && Self::ok%(k)d_%(f)s(x) && Self::mv%(k)d_%(f)s(x) == s; pre%(k)d.%(P)s.lemma_len(x); assert(%(back)s =~= x); assert(%(canPx)s =~= t); }' % D1)
                         fh.append('        assert(old(self).%(f)s@.contains(s) <==> (s.len() == %(m)d && old(self).t_%(r)s_old().contains(t)));' % D1)
                         fh.append('    }')
                         fh.append('    assert(self.%(f)s@ =~= ISet::new(|s: Seq<u32>| s.len() == %(m)d && self.t_%(r)s_old().contains(%(cO)s)));' % D1)
